@@ -19,13 +19,14 @@
 #include <relic.h>
 #include <ctype.h>
 #include <signal.h>
+#include <stdarg.h>
 #include <stdint.h>
 #include <stdio.h>
 #include <stdlib.h>
 #include <string.h>
 #include <unistd.h>
 
-#define VH_MAXTOK 64
+#define VH_MAXTOK 512
 #define VH_LINE (1 << 20)
 
 static FILE *vh_out;
